@@ -291,7 +291,7 @@ pub fn run_check<P: Prop>(prop: P, tier: Tier) -> ! {
     let runs = std::env::var("VERIF_RUNS").ok().and_then(|s| s.parse().ok()).unwrap_or(budget.runs);
     let wall = std::env::var("VERIF_WALL_S").ok().and_then(|s| s.parse().ok()).unwrap_or(budget.wall_s);
     let workers: usize = std::env::var("VERIF_WORKERS").ok().and_then(|s| s.parse().ok()).unwrap_or(16);
-    let hang_s: u64 = std::env::var("VERIF_HANG_S").ok().and_then(|s| s.parse().ok()).unwrap_or(90);
+    let hang_s: u64 = std::env::var("VERIF_HANG_S").ok().and_then(|s| s.parse().ok()).unwrap_or(240);
     outln!("[{}] tier={} VERIF_SEED={} runs<={} wall<={}s workers={}", id, tier.name(), seed, runs, wall, workers);
 
     // ---- known findings: replay each listed witness first
